@@ -31,6 +31,11 @@ var (
 	// of running proxy servers.
 	mu      sync.Mutex
 	servers = make(map[string]Server)
+
+	// terminating is set by Terminate. A server which is started
+	// from then on would miss the shutdown and keep accepting
+	// connections until the process ends, so it is not started.
+	terminating bool
 )
 
 func CloseProxy(address string) error {
@@ -76,6 +81,19 @@ func Shutdown(timeout time.Duration) {
 		}(srv)
 	}
 	wg.Wait()
+}
+
+// Terminate shuts down all servers like Shutdown when the process is
+// about to exit. In addition no server is started any more: a listener
+// which is still starting when the signal arrives, or a dynamic tcp
+// listener which is opened during the shutdown wait, registers after
+// Shutdown has taken the servers out of the registry and would keep
+// accepting connections until the process ends.
+func Terminate(timeout time.Duration) {
+	mu.Lock()
+	terminating = true
+	mu.Unlock()
+	Shutdown(timeout)
 }
 
 func ListenAndServeHTTP(l config.Listen, h http.Handler, cfg *tls.Config) error {
@@ -206,6 +224,13 @@ func ListenAndServeTCP(l config.Listen, h tcp.Handler, cfg *tls.Config) error {
 
 func serve(ln net.Listener, srv Server) error {
 	mu.Lock()
+	if terminating {
+		mu.Unlock()
+		log.Printf("[INFO] Not serving on %s since fabio is shutting down", ln.Addr())
+		ln.Close()
+		srv.Close()
+		return nil
+	}
 	servers[ln.Addr().String()] = srv
 	mu.Unlock()
 	err := srv.Serve(ln)
